@@ -91,6 +91,7 @@ pub fn make_case(r: &mut Sm, idx: usize) -> Case {
 
 fn run_case<K: Kit>(ctx: &Ctx, b: &mut Batch, kit: &K, case: &Case) {
     b.evaluations += 1;
+    crate::watch::set_case(case.to_json());
     let pname = case.params.kind.name();
     let replay = || {
         let mut v = case.to_json();
